@@ -39,6 +39,12 @@ def gen_cases(tier, seed):
         # checker parameters: defaults and non-default perturbation / tolerance pairs
         pert, tol = [(1e-8, 1e-4), (1e-8, 1e-4), (1e-7, 1e-5), (1e-6, 1e-4), (1e-8, 1e-5), (1e-7, 1e-4)][int(rng.integers(0, 6))]
         case["deriv_pert"], case["deriv_tol"] = pert, tol
+        if rng.random() < 0.3:
+            # the user's matrices reach the checker as they are (no scaling, no slack columns) and the user sets up
+            # the sparsity structure once: all matrices handed out share their (non-canonically ordered) index arrays
+            cfgd["scaling"] = "none"
+            case["gopts"]["row_force"] = ["eq"] * 12
+            case["policy"] = "shared"
         cases.append(case)
     return cases
 
@@ -148,6 +154,7 @@ def run_case(case):
     bump("non_default_checker_parameters", int((EPSc, TOLc) != (1e-8, 1e-4)))
     res["maxes"] = {"fd_error_bound": bound}
     bump("base_runs")
+    bump("bases_shared_structure_%s" % case.get("fmt"), int(case.get("policy") == "shared"))
     evals = 1
     nt = 0
     # ---- (a) correct derivatives
@@ -172,6 +179,7 @@ def run_case(case):
                     "without the check" % mode)
             else:
                 nt += 1
+                bump("correct_runs_identical_shared_structure", int(case.get("policy") == "shared"))
     else:
         bump("bases_outside_well_scaled_class")
     # ---- (b) single corrupted entries
@@ -254,7 +262,7 @@ def run_case(case):
 def finalize(agg, tier):
     return {
         "rule": "NLP specs (softplus objective terms, quadratic rows, slacks, optional custom power-of-two scaling), n<=6, "
-                "random in-bounds starts incl. on-bound components, random or zero starting multipliers; per base problem: "
+                "random in-bounds starts incl. on-bound components, 30% of the bases unscaled with equality rows only and matrices that share one set of non-canonically ordered index arrays (structure set up once by the user), random or zero starting multipliers; per base problem: "
                 "check modes All/First/Second with correct derivatives (only if the computed forward-difference error bound "
                 "is <= a tenth of the tolerance) and up to 40 single-entry corruptions (every gradient / Jacobian / Hessian position when there "
                 "are fewer) for default and non-default (deriv_pert, deriv_tol) pairs, with magnitude 1x..30x (30%: up to 1e4x) the safe threshold 3(atol+rtol|entry|), both signs, 30% of the matrix corruptions as an entry missing from the sparsity pattern; 25% of them under a "
@@ -262,7 +270,8 @@ def finalize(agg, tier):
         "floors": {"base_runs": 100, "well_scaled_bases": 40, "correct_runs_checked": 120, "corruptions_injected": 2000,
                    "corrupt_grad": 200, "corrupt_jac": 300, "corrupt_hess": 500, "pinpointed": 1500,
                    "corruptions_outside_checked_part": 100, "corruptions_entry_missing_from_pattern": 100,
-                   "non_default_checker_parameters": 40},
+                   "non_default_checker_parameters": 40, "correct_runs_identical_shared_structure": 30,
+                   "bases_shared_structure_csc": 5},
         "assumptions": ["well-scaled class: eps/2*|2nd derivative| + 4*macheps*|f|/eps + 2*macheps*|x_i||d|/eps <= 1e-5 for "
                         "all checked functions of the transformed problem at the start (magnitudes as sums of absolute "
                         "values of terms); location is only judged for bases in that class"],
